@@ -260,6 +260,11 @@ class CFG:
                 continue
             # `otherwise -> unreachable` arms of exhaustive matches are not real alternatives
             succs = [x for x in self.succ[s] if self.fn.blocks[x]["term"]["k"] != "unreachable"]
+            # arms that can only diverge (assert!/panic!) are not alternatives either, unless the
+            # queried block itself lies on one
+            live = [x for x in succs if self._can_return(x)]
+            if live and any(bb in self.reach({x}, avoid={s}) for x in live):
+                succs = live
             can = set()
             for x in succs:
                 if bb in self.reach({x}, avoid={s}):
@@ -267,6 +272,12 @@ class CFG:
             if can and can != set(succs):
                 out.append((s, can))
         return out
+
+    def _can_return(self, bb):
+        cache = self.__dict__.setdefault("_can_ret", {})
+        if bb not in cache:
+            cache[bb] = bool(self.reach({bb}) & set(self.exits))
+        return cache[bb]
 
     def edge_values(self, a, b):
         return self.edge_label.get((a, b), [])
